@@ -9,6 +9,9 @@ import (
 
 	"golang.org/x/crypto/ssh"
 	"golang.org/x/crypto/ssh/testdata"
+	"golang.org/x/crypto/verifh/simnet"
+	"golang.org/x/crypto/verifh/wiremon"
+	rt "golang.org/x/crypto/verifsimrt"
 )
 
 // HostKey is a fixed Ed25519 host key (cheap to sign with).
@@ -32,4 +35,48 @@ func init() {
 		}
 		Signers[name] = s
 	}
+}
+
+// Wire is a simulated link between an SSH client and server with the
+// independent wire monitor attached to both directions.
+type Wire struct {
+	C, S       *simnet.Conn // client end, server end
+	C2S, S2C   *simnet.Dir
+	Mon        *wiremon.Monitor
+	ClientKex  []ssh.VerifKexInfo
+	ServerKex  []ssh.VerifKexInfo
+	OnKexInit  func(dir int) // called when a KEXINIT is written in a direction
+	OnNewKeys  func(dir int)
+}
+
+// NewWire creates the link; violations of wire invariants are reported under
+// property prop with the monitor's oracle names.
+func NewWire(prop string, fragDen int) *Wire {
+	w := &Wire{Mon: wiremon.New()}
+	w.C, w.S, w.C2S, w.S2C = simnet.Pipe("ssh")
+	w.C2S.FragDen, w.S2C.FragDen = fragDen, fragDen
+	w.Mon.Fail = func(oracle, msg string) { rt.Violate(prop, oracle, "%s", msg) }
+	w.Mon.OnPacket = func(p *wiremon.Packet) {
+		switch p.Type {
+		case 20:
+			if w.OnKexInit != nil {
+				w.OnKexInit(p.Dir)
+			}
+		case 21:
+			if w.OnNewKeys != nil {
+				w.OnNewKeys(p.Dir)
+			}
+		}
+	}
+	w.C2S.Tap = func(p []byte) { w.Mon.Feed(0, p) }
+	w.S2C.Tap = func(p []byte) { w.Mon.Feed(1, p) }
+	ssh.VerifObserveKex(func(k ssh.VerifKexInfo) {
+		if k.Server {
+			w.ServerKex = append(w.ServerKex, k)
+		} else {
+			w.ClientKex = append(w.ClientKex, k)
+		}
+		w.Mon.AddResult(k.Server, wiremon.KexResult{K: k.K, H: k.H, Hash: k.Hash})
+	})
+	return w
 }
